@@ -303,8 +303,11 @@ mut("c09-poison-ignores-cancel", ["C09", "C13"], "no-poison-on-cancel",
     ("src/sync/poison.rs", "            if !is_canceled {\n                self.failed.store(1, Ordering::Relaxed);\n            }", "            let _ = is_canceled;\n            self.failed.store(1, Ordering::Relaxed);"))
 mut("c13-write-guard-skips-unlock-when-poisoning", ["C13", "C12"], "rw-guard-drop-unlocks|write-guard-drop-unlocks",
     ("src/sync/rwlock.rs", "        self.__lock.poison.done(&self.__poison);\n        self.__lock.write_unlock();", "        self.__lock.poison.done(&self.__poison);\n        if !self.__lock.poison.get() {\n            self.__lock.write_unlock();\n        }"))
-mut("c14-scope-drop-no-join", ["C14"], "scope/drop-joins",
-    ("src/scoped.rs", "impl Drop for Scope<'_> {\n    fn drop(&mut self) {\n        self.drop_all()\n    }\n}", "impl Drop for Scope<'_> {\n    fn drop(&mut self) {}\n}"))
+ben("c14-scope-drop-no-join-after-f37", ["C14", "C13"],
+    ("src/scoped.rs", "        // `scope` has already run all the dtors\n        self.drop_all();", "        // `scope` has already run all the dtors"))
+mut("c14-scope-landing-pad-and-no-join-in-drop", ["C14"], "scope/",
+    ("src/scoped.rs", "    let ret = panic::catch_unwind(panic::AssertUnwindSafe(|| f(&scope)));\n", "    let ret: std::thread::Result<R> = Ok(f(&scope));\n"),
+    ("src/scoped.rs", "        // `scope` has already run all the dtors\n        self.drop_all();", "        // `scope` has already run all the dtors"))
 mut("c15-check-cancel-no-consume", ["C15", "C09"], "check-cancel-always-consumes|consume-before-panic",
     ("src/cancel.rs", "            // this would affect future new coroutine that reuse the instance\n            get_co_para();\n", "            // this would affect future new coroutine that reuse the instance\n"))
 
